@@ -26,7 +26,11 @@ LEAF_PROGRAM = [
     (F('k', C(1)), CUT),
     (F('k', C(2)), TRUE),
     (F('t2', C(2)), TRUE),
-    # one NAME at two arities: kk/0 has a single clause that ends in a cut, kk/1 has plain facts
+]
+# one NAME at two arities: kk/0 has a single clause that ends in a cut, kk/1 has plain facts. These
+# clauses go into the SAME script as the clause that calls kk (what a compiler knows about a callee
+# it knows from its own compilation unit)
+KK_CLAUSES = [
     (A('kk'), (',', call(F('o', C(1))), CUT)),
     (F('kk', C(1)), TRUE),
     (F('kk', C(2)), TRUE),
